@@ -6,6 +6,7 @@ import (
 	"sort"
 	"strconv"
 	"time"
+	"unicode/utf8"
 
 	"github.com/influxdata/kapacitor/edge"
 	"github.com/influxdata/kapacitor/models"
@@ -28,6 +29,9 @@ func encVal(v any) (typ, val string) {
 	case bool:
 		return "bool", strconv.FormatBool(x)
 	case string:
+		if !utf8.ValidString(x) {
+			return "string/invalid-utf8", fmt.Sprintf("%x", x)
+		}
 		return "string", x
 	case nil:
 		return "nil", ""
